@@ -202,6 +202,9 @@ pub struct CodegenContext {
     /// The number of macro invocations that are currently being expanded, used to detect runaway recursion
     macro_depth: usize,
     loop_iterations: usize,
+    /// The banks and segments that were defined in the current pass (a second definition replaces the first,
+    /// dropping whatever was emitted to it)
+    defined_in_pass: std::collections::HashSet<(bool, Identifier)>,
 
     test_elements: Vec<TestElement>,
     /// While the body of the active test is being emitted: the address of the first byte it has emitted so far
@@ -255,6 +258,7 @@ impl CodegenContext {
             import_stack: vec![],
             macro_depth: 0,
             loop_iterations: 0,
+            defined_in_pass: Default::default(),
             test_elements: vec![],
             active_test_entry: None,
             source_map: SourceMap::default(),
@@ -343,6 +347,7 @@ impl CodegenContext {
         self.pass_idx += 1;
         self.next_macro_scope_id = 0;
         self.loop_iterations = 0;
+        self.defined_in_pass.clear();
 
         log::trace!("\n* NEXT PASS ({}) *", self.pass_idx);
         self.segments.values_mut().for_each(|s| s.reset());
@@ -714,6 +719,14 @@ impl CodegenContext {
                                     .unwrap_or_default(),
                                 filename: extractor.try_get_string(self, "filename")?,
                             };
+                            // (not while an untaken branch is only being analysed: its definitions are alternatives)
+                            let analysing = matches!(&self.current_segment, Some(s) if s.as_str() == "$dummy");
+                            if !analysing && !self.defined_in_pass.insert((true, name.clone())) {
+                                return Err(Diagnostic::error()
+                                    .with_message(format!("bank '{}' is already defined", name))
+                                    .with_labels(vec![id.span.to_label()])
+                                    .into());
+                            }
                             let create_segment = opts.create_segment;
                             self.banks.insert(name.clone(), opts);
 
@@ -722,6 +735,7 @@ impl CodegenContext {
                                     bank: Some(name.clone()),
                                     ..Default::default()
                                 };
+                                self.defined_in_pass.insert((false, name.clone()));
                                 self.segments.insert(name, Segment::new(segment_opts));
                             }
                         }
@@ -782,6 +796,13 @@ impl CodegenContext {
                                 None => opts.target_address = opts.initial_pc,
                             }
 
+                            let analysing = matches!(&self.current_segment, Some(s) if s.as_str() == "$dummy");
+                            if !analysing && !self.defined_in_pass.insert((false, name.clone())) {
+                                return Err(Diagnostic::error()
+                                    .with_message(format!("segment '{}' is already defined", name))
+                                    .with_labels(vec![id.span.to_label()])
+                                    .into());
+                            }
                             self.segments.insert(name.clone(), Segment::new(opts));
                             if self.current_segment.is_none() {
                                 self.current_segment = Some(name);
